@@ -1,2 +1,126 @@
-/-! Line-protocol driver of the Chan model (stub). -/
-def main : IO Unit := pure ()
+import SoxrModel.Chan.Toy
+import SoxrModel.Chan.Clear
+/-!
+# `soxr_chan`: line-protocol driver of the Chan models (C06 API layer over the toy engine; C10 struct-level model)
+
+stdin, one op per line; one answer line per op.  `harness/chan/api.c` executes the same lines on the REAL `soxr.c` +
+`data-io.c` with the same toy engine plugged in through `control_block`, `checks/c06.py` diffs the answers.
+
+```
+cfg <ch> <isplit> <osplit> <otype> <dither> <m> <l> <scale> <seed> <vr>     -> "ok"
+proc <hasIn> <ilen0> <flushReq> <wantIdone> <outPresent> <olen> <tagbase> <reply>*
+pull <outPresent> <olen> <reply>*                    reply: d<N>:<tagbase> | e | f
+setfn <maxilen> | ratio <m> <l> <slew> | clear
+   -> "o idone= odone= err= ret= fl= delay= clips= seed= n= h= v=…"   (n, h, v: the caller's output memory, in memory order)
+imap de <ch> <n>     -> "im …"   channel after channel: which flat index each dest[c][f] received
+imap in <ch> <n>     -> "im …"   the flat buffer: which source sample (c·n + f) each position received
+```
+C10 lines (`c10 …`) are handled by `Soxr.Chan.Clear.driverLine`.
+-/
+namespace Soxr.Chan.Main
+open Soxr.Chan
+
+def nat (s : String) : Nat := s.toNat?.getD 0
+
+/-- input sample (in 1/32768 units) of frame `f` (relative to the block), channel `c` -/
+def tag (base f c : Nat) : Int :=
+  (((((base + f * 7 + c * 1301) % 2 ^ 32) * 2654435761) % 2 ^ 32) / 2 ^ 17 : Nat) - 16384
+
+def chanData (base n c : Nat) : List Int := (List.range n).map (fun f => tag base f c)
+
+structure D where
+  ch : Nat := 1
+  isplit : Bool := false
+  osplit : Bool := false
+  otype : Nat := 1
+  dither : Bool := false
+  m : Nat := 1
+  l : Nat := 1
+  scale : Nat := 1
+  vr : Bool := false
+  st : St Toy.TE := initSt (Toy.engine 1 1 1) 1 0
+
+def D.cfg (d : D) : Cfg Int Int := Toy.cfg d.ch d.isplit d.osplit d.otype d.dither d.m d.l d.vr
+def D.eng (d : D) : Engine Toy.TE Int := Toy.engine d.m d.l d.scale
+
+def mkBuf (d : D) (base n : Nat) : InBuf Int :=
+  encodeIn d.cfg n ((List.range d.ch).map (chanData base n))
+
+def parseReply (d : D) (tok : String) : Nat → FnReply Int :=
+  if tok == "f" then fun _ => .fail
+  else if tok == "e" then fun _ => .data 0 (mkBuf d 0 0)
+  else
+    let body := (tok.drop 1).toString
+    match body.splitOn ":" with
+    | [a, b] => fun req => let n := min (nat a) req; .data n (mkBuf d (nat b) n)
+    | _ => fun _ => .data 0 (mkBuf d 0 0)
+
+def fnv (vs : List Int) : UInt64 :=
+  vs.foldl (fun h v => (h ^^^ UInt64.ofNat (v % (2 ^ 64 : Int)).toNat) * 0x100000001B3) 0xCBF29CE484222325
+
+def errCode : Option Err → Nat
+  | none => 0
+  | some .nullIn => 1
+  | some .nullOut => 2
+  | some .fnFail => 3
+
+/-- the caller's output memory in memory order -/
+def rawOut (d : D) (odone : Nat) (out : List (List Int)) : List Int :=
+  if d.osplit then (List.range d.ch).flatMap (fun c => takePad 0 odone (out.getD c []))
+  else interleave 0 d.ch odone out
+
+def obsLine (d : D) (s : St Toy.TE) (o : Obs Int) (showIdone : Bool := true) : String :=
+  let raw := rawOut d o.odone o.out
+  let first := ",".intercalate ((raw.take 6).map toString)
+  let idone := if showIdone then toString o.idone else "-"
+  s!"o idone={idone} odone={o.odone} err={errCode o.err} ret={o.ret} fl={if o.flushing then 1 else 0} delay={o.delay} clips={s.clips} seed={s.seed} n={raw.length} h={fnv raw} v={first}"
+
+def doOp (d : D) (op : Op Int) (showIdone : Bool := true) : D × String :=
+  let r := step d.eng d.cfg d.st op
+  ({ d with st := r.1 }, obsLine d r.1 r.2 showIdone)
+
+def handle (d : D) (t : List String) : D × String :=
+  match t with
+  | ["cfg", ch, isp, osp, ot, di, m, l, sc, seed, vr] =>
+    let d' : D := { ch := nat ch, isplit := nat isp != 0, osplit := nat osp != 0, otype := nat ot, dither := nat di != 0,
+                    m := nat m, l := nat l, scale := nat sc, vr := nat vr != 0 }
+    ({ d' with st := initSt d'.eng d'.ch (nat seed) }, "ok")
+  | "proc" :: hasIn :: ilen0 :: fr :: wi :: op :: olen :: base :: reps =>
+    let inb := if nat hasIn != 0 then some (mkBuf d (nat base) (nat ilen0)) else none
+    doOp d (.process inb (nat ilen0) (nat fr != 0) (nat wi != 0) (nat op != 0) (nat olen) (reps.map (parseReply d))) (nat wi != 0)
+  | "pull" :: op :: olen :: reps => doOp d (.output (nat op != 0) (nat olen) (reps.map (parseReply d)))
+  | ["setfn", m] => doOp d (.setInputFn (nat m))
+  | ["ratio", m, l, slew] =>
+    let (d', line) := doOp d (.setRatio (nat m * 16 + nat l) (nat slew))
+    -- the toy engine follows the new ratio (VR only); `p->io_ratio` (hence `iForO`) stays as created, as in soxr.c
+    (d', line)
+  | ["clear"] => doOp d .clear
+  | ["imap", "de", ch, n] =>
+    let flat : List Int := (List.range (nat n * nat ch)).map (fun (k : Nat) => Int.ofNat k)
+    (d, "im " ++ " ".intercalate (((List.range (nat ch)).flatMap (fun c => deinterleave 0 (nat ch) (nat n) flat c)).map toString))
+  | ["imap", "in", ch, n] =>
+    let chans : List (List Int) := (List.range (nat ch)).map (fun c => (List.range (nat n)).map (fun (f : Nat) => Int.ofNat (c * nat n + f)))
+    (d, "im " ++ " ".intercalate ((interleave 0 (nat ch) (nat n) chans).map toString))
+  | _ => (d, "E bad-line")
+
+partial def loop (h : IO.FS.Stream) (out : IO.FS.Stream) (d : D) (c : Clear.DSt) : IO Unit := do
+  let line ← h.getLine
+  if line.isEmpty then return
+  let t := (line.trimAscii.toString.splitOn " ").filter (· ≠ "")
+  match t with
+  | [] => loop h out d c
+  | "c10" :: rest =>
+    let (c', ans) := Clear.driverLine c rest
+    out.putStrLn ans
+    loop h out d c'
+  | _ =>
+    let (d', ans) := handle d t
+    out.putStrLn ans
+    loop h out d' c
+
+end Soxr.Chan.Main
+
+def main : IO Unit := do
+  let stdin ← IO.getStdin
+  let stdout ← IO.getStdout
+  Soxr.Chan.Main.loop stdin stdout {} {}
